@@ -59,13 +59,13 @@ def run(ck):
     rebinds = [n for n in walk_body(fn) if isinstance(n, ast.Assign) and any(dotted(t) == D for t in n.targets)]
     ck.need(len(rebinds) == 1, "BoundedDict.__setitem__: expected exactly one rebuild of %s, found %d" % (D, len(rebinds)))
     rebuild = rebinds[0]
-    keep_slices = [s for s in walk_local(rebuild.value) if isinstance(s, ast.Subscript) and isinstance(s.slice, ast.Slice)]
+    keep_slices = [s for s in walk_local(res.expand_node(rebuild.value)) if isinstance(s, ast.Subscript) and isinstance(s.slice, ast.Slice)]
     cb_loops = [n for n in walk_body(fn) if isinstance(n, ast.For) and _cb_calls(n)]
     ck.need(len(keep_slices) == 1, "BoundedDict.__setitem__: keep slice not recognised")
     ck.need(len(cb_loops) == 1, "BoundedDict.__setitem__: callback loop not recognised")
     keep = keep_slices[0]
     loop = cb_loops[0]
-    ev_slices = [s for s in walk_local(loop.iter) if isinstance(s, ast.Subscript) and isinstance(s.slice, ast.Slice)]
+    ev_slices = [s for s in walk_local(res.expand_node(loop.iter)) if isinstance(s, ast.Subscript) and isinstance(s.slice, ast.Slice)]
     ck.need(len(ev_slices) == 1, "BoundedDict.__setitem__: evicted slice not recognised")
     ev = ev_slices[0]
     same_list = res.expand(keep.value) == res.expand(ev.value)
